@@ -384,8 +384,10 @@ PROPS["C06"] = {
     "level_text": "Placements of short writes and would-block results over the successive socket calls are generated per case and applied to the real transport on a live connection. Not exhaustive: placements are sampled.",
     "level_note": "A simulated would-block leaves the real socket writable, so epoll reports it writable again at once: fine for data integrity and promise semantics (this check), not for starvation (C07 uses real back-pressure). Needs the PISTACHE_VERIF_HOOKS indirection in transport.cc.",
     "assumptions": ["the send/sendfile hooks see every socket write of the transport"],
-    "quick": {"stages": [{"kind": "replay"}, {"kind": "rc", "procs": 6, "cases": 250, "maxlen": 300}]},
-    "thorough": {"stages": [{"kind": "replay"}, {"kind": "rc", "procs": 8, "cases": 5000, "maxlen": 300}]},
+    "quick": {"stages": [{"kind": "replay"}, {"kind": "rc", "procs": 6, "cases": 250, "maxlen": 300},
+                         {"kind": "rc", "source": "c06_coincide.cc", "noshrink": True, "procs": 4, "cases": 12, "maxlen": 60}]},
+    "thorough": {"stages": [{"kind": "replay"}, {"kind": "rc", "procs": 8, "cases": 5000, "maxlen": 300},
+                            {"kind": "rc", "source": "c06_coincide.cc", "noshrink": True, "procs": 8, "cases": 150, "maxlen": 60}]},
 }
 
 PROPS["C07"] = {
